@@ -625,6 +625,65 @@ def _depends(fi: FunctionInfo, ret: ast.Return, local: str) -> bool:
 
 
 # --------------------------------------------------------------------------------------------------------------------
+def labelcount_pass(run: Run, pkg: Package, funcs: List[FunctionInfo]) -> int:
+    """R-LABELCOUNT: `for k in range(<number of distinct type labels>)` whose counter is then matched against the labels
+    themselves (`particle_type - 1 == k`): the NUMBER of species present bounds a loop over species LABELS, so with labels
+    {1, 3} (a 3 x 3 parameter table, species 2 absent) the particles of label 3 are never visited."""
+    n = 0
+
+    def resolves_to_count(fi, expr, depth=3):
+        txt = ast.unparse(expr)
+        if "unique" in txt and "particle_type" in txt and (".size" in txt or txt.startswith("len(") or ".shape[0]" in txt):
+            return True
+        if txt in ("len(self.typenumber)", "self.typenumber.size", "self.typenumber.shape[0]", "len(typenumber)"):
+            return True
+        if depth == 0:
+            return False
+        names = [m for m in ast.walk(expr) if isinstance(m, ast.Name)] if not isinstance(expr, ast.Name) else [expr]
+        if isinstance(expr, ast.Name):
+            for st in ast.walk(fi.node):
+                if isinstance(st, ast.Assign) and any(isinstance(t, ast.Name) and t.id == expr.id for t in st.targets):
+                    if resolves_to_count(fi, st.value, depth - 1):
+                        return True
+        if is_self_attr(expr) and fi.cls is not None:
+            for m in fi.cls.methods.values():
+                for st in ast.walk(m.node):
+                    if isinstance(st, ast.Assign) and any(is_self_attr(t, expr.attr) for t in st.targets):
+                        if resolves_to_count(m, st.value, depth - 1):
+                            return True
+        return False
+
+    for fi in funcs:
+        for loop in ast.walk(fi.node):
+            if not (isinstance(loop, ast.For) and isinstance(loop.target, ast.Name) and isinstance(loop.iter, ast.Call) and isinstance(loop.iter.func, ast.Name)
+                    and loop.iter.func.id == "range" and len(loop.iter.args) == 1):
+                continue
+            if not resolves_to_count(fi, loop.iter.args[0]):
+                continue
+            n += 1
+            k = loop.target.id
+            # locals derived from particle_type inside the function
+            derived = {"particle_type"}
+            for _ in range(3):
+                for st in ast.walk(fi.node):
+                    if isinstance(st, ast.Assign) and any(isinstance(m, (ast.Name, ast.Attribute)) and (getattr(m, "id", None) in derived or getattr(m, "attr", None) in derived) for m in ast.walk(st.value)):
+                        derived |= {t.id for t in st.targets if isinstance(t, ast.Name)}
+            for c in ast.walk(loop):
+                if isinstance(c, ast.Compare) and len(c.ops) == 1 and isinstance(c.ops[0], ast.Eq):
+                    sides = [c.left, c.comparators[0]]
+                    has_k = [any(isinstance(m, ast.Name) and m.id == k for m in ast.walk(x)) for x in sides]
+                    has_t = [any((isinstance(m, ast.Name) and m.id in derived) or (isinstance(m, ast.Attribute) and m.attr == "particle_type") for m in ast.walk(x)) for x in sides]
+                    if (has_k[0] and has_t[1]) or (has_k[1] and has_t[0]):
+                        run.ob("R-LABELCOUNT", short(fi.qual), f"{k}@{norm_stmt(c)[:60]}", False,
+                               "a loop over species labels runs over the labels (or the rows of the parameter table), not over the number of species present",
+                               f"for {k} in range({ast.unparse(loop.iter.args[0])[:50]}) - the count of distinct labels - and {ast.unparse(c)[:60]} selects particles by label",
+                               witness="labels {1, 3} with a 3 x 3 parameter table (species 2 absent): two labels are counted, the loop visits label indices 0 and 1, "
+                                       "particles of label 3 are never selected", loc=fi.loc(c), sound=True)
+                        break
+    return n
+
+
+# --------------------------------------------------------------------------------------------------------------------
 def savepath_pass(run: Run, pkg: Package, funcs: List[FunctionInfo]) -> int:
     """R-SAVE-PATH: a routine that writes its result to a file named by one of its parameters does so on every path that returns
     a result.  A `return <value>` that precedes the first save site (an early exit / fast path) hands back a value without
@@ -847,5 +906,6 @@ def state_pass(run: Run, pkg: Package, everything: bool = False) -> None:
         "falsy_defaults": falsy_pass(run, pkg, funcs),
         "dict_value_arrays": dictorder_pass(run, pkg, funcs),
         "saving_routines": savepath_pass(run, pkg, funcs),
+        "label_count_loops": labelcount_pass(run, pkg, funcs),
     }
     run.extra["state_rules"] = {"functions": len(funcs), **counts}
